@@ -166,3 +166,83 @@ def initState (a : Mat n n α) : SolverState n α :=
 def jacobi (L : SolverLeaves α) (a : Mat n n α) : SolverState n α := iterate L 50 0 (initState a)
 
 end Epsic.Jacobi
+
+/-! ### The n×n complex Hermitian solver (the same templates at `T = std::complex<U>`)
+
+`norm(a[ip][iq])` resolves to `std::norm` (the *squared* modulus) for complex elements and to `fabs` for the real
+eigenvalues; `myconj` is the complex conjugate; the column pass uses `(s, tau)`, the row passes use their conjugates. -/
+namespace Epsic.Jacobi
+open Epsic
+variable {α : Type} [Arith α] {n : Nat}
+
+/-- `rotate_Jacobi` for complex elements: `x[i][j] -= conj(s)*(h+g*conj(tau)); x[k][l] += s*(g-h*tau)` -/
+def rotatePairC (x : Mat n n (Cx α)) (s tau : Cx α) (i j k l : Fin n) : Mat n n (Cx α) :=
+  let g := x i j
+  let h := x k l
+  setM (setM x i j (g - s.conj*(h + g*tau.conj))) k l (h + s*(g - h*tau))
+
+def colPassC (x : Mat n n (Cx α)) (s tau : Cx α) (p q : Fin n) : Mat.Frozen n n (Cx α) :=
+  foldStored (fun acc j => rotatePairC acc s tau j p j q) (List.finRange n) x
+def rowPassC (x : Mat n n (Cx α)) (s tau : Cx α) (p q : Fin n) : Mat.Frozen n n (Cx α) :=
+  foldStored (fun acc j => rotatePairC acc s tau p j q j) (List.finRange n) x
+
+structure CSolverState (n : Nat) (α : Type) where
+  a : Mat n n (Cx α)
+  v : Mat n n (Cx α)
+  d : Vec n α
+  b : Vec n α
+  z : Vec n α
+
+def rotationC (sqrtFn : α → R α) (ltZero : α → Bool) (st : CSolverState n α) (p q : Fin n) : R (CSolverState n α) := do
+  let r ← calculateComplex sqrtFn ltZero (st.d p) (st.d q) (st.a p q)
+  let d1 := setV st.d p (st.d p - r.correction)
+  let d2 := setV d1 q (d1 q + r.correction)
+  let a1 := colPassC st.a r.s r.tau p q
+  let a2 := rowPassC (Mat.thaw a1) r.s.conj r.tau.conj p q
+  let a3 := Mat.freeze (setM (setM (Mat.thaw a2) p q zero) q p zero)
+  let v1 := rowPassC st.v r.s.conj r.tau.conj p q
+  let z1 := setV st.z p (st.z p - r.correction)
+  let z2 := setV z1 q (z1 q + r.correction)
+  let fd := freezeV d2
+  let fz := freezeV z2
+  pure ⟨Mat.thaw a3, Mat.thaw v1, thawV fd, st.b, thawV fz⟩
+
+def pairStepC (L : SolverLeaves α) (sqrtFn : α → R α) (iter : Nat) (thresh : α) (st : CSolverState n α) (pq : Fin n × Fin n) :
+    R (CSolverState n α) :=
+  let p := pq.1
+  let q := pq.2
+  let g := L.hundred * (st.a p q).norm
+  if decide (iter > 4) && L.eq (L.abs (st.d p) + g) (L.abs (st.d p)) && L.eq (L.abs (st.d q) + g) (L.abs (st.d q)) then
+    pure { st with a := setM (setM st.a q p zero) p q zero }
+  else if L.gt (st.a p q).norm thresh then rotationC sqrtFn L.ltZero st p q
+  else pure st
+
+def offSumC (a : Mat n n (Cx α)) : α :=
+  (pairs n).foldl (fun acc pq => acc + (a pq.1 pq.2).norm) zero
+
+def endSweepC (st : CSolverState n α) : CSolverState n α :=
+  let fb := freezeV (fun i => st.b i + st.z i)
+  { st with b := thawV fb, d := thawV fb, z := fun _ => zero }
+
+def sweepC (L : SolverLeaves α) (sqrtFn : α → R α) (iter : Nat) (sum : α) (st : CSolverState n α) : R (CSolverState n α) := do
+  let thresh := if iter < 4 then L.fifth * sum / Arith.ofNat (n*n) else zero
+  let st' ← (pairs n).foldlM (pairStepC L sqrtFn iter thresh) st
+  pure (endSweepC st')
+
+def iterateC (L : SolverLeaves α) (sqrtFn : α → R α) : Nat → Nat → CSolverState n α → R (CSolverState n α)
+  | 0, _, st => pure st
+  | fuel+1, iter, st =>
+    let sum := offSumC st.a
+    if Arith.eq0 sum then pure st
+    else match sweepC L sqrtFn iter sum st with
+      | .error e => .error e
+      | .ok st' => iterateC L sqrtFn fuel (iter+1) st'
+
+def initStateC (a : Mat n n (Cx α)) : CSolverState n α :=
+  ⟨a, Mat.identity, fun i => (a i i).re, fun i => (a i i).re, fun _ => zero⟩
+
+/-- `Jacobi (a, evec, eval)` for a complex Hermitian matrix -/
+def jacobiC (L : SolverLeaves α) (sqrtFn : α → R α) (a : Mat n n (Cx α)) : R (CSolverState n α) :=
+  iterateC L sqrtFn 50 0 (initStateC a)
+
+end Epsic.Jacobi
